@@ -14,7 +14,7 @@ import (
 
 // File is one generated compilation unit.
 type File struct {
-	Source   string         // handwritten | grammar | fixture
+	Source   string // handwritten | grammar | fixture
 	Text     string
 	Families map[string]int // construct families outside the conventional subset (multiset)
 	Note     string         // what was done (fixture path + rewrites, sampler budget, ...)
